@@ -1,6 +1,6 @@
 #!/bin/sh
 # Run every registered quick (or $1=thorough) check on the current tree; print one line each.
-cd /verif
+cd "$(dirname "$0")/.."
 TIER=${1:-quick}
 for id in $(/venv/bin/python -c "import json;print(' '.join(c['property_id'] for c in json.load(open('MANIFEST.json'))['checks']))"); do
   out=$(./check $id --tier $TIER 2>&1); rc=$?
